@@ -47,21 +47,21 @@ type peerConn struct {
 }
 
 type Peer struct {
-	T         *T
-	transport string
-	version   int
-	addr      string
-	ln        net.Listener
-	srv       *http.Server
-	mu        sync.Mutex
-	conns     []*peerConn
-	dials     int32
-	open      int32
-	refuse    int32
-	onFrame   func(pc *peerConn, f frameIn)
-	onConn    func(pc *peerConn)
+	T           *T
+	transport   string
+	version     int
+	addr        string
+	ln          net.Listener
+	srv         *http.Server
+	mu          sync.Mutex
+	conns       []*peerConn
+	dials       int32
+	open        int32
+	refuse      int32
+	onFrame     func(pc *peerConn, f frameIn)
+	onConn      func(pc *peerConn)
 	slowUpgrade func(n int) // WebSocket: called before the HTTP upgrade of dial n (may block: a slow dial)
-	holdFd    int // while refusing: a bound, non-listening socket that keeps the port (no other process can take it)
+	holdFd      int         // while refusing: a bound, non-listening socket that keeps the port (no other process can take it)
 }
 
 func newPeer(t *T, transport string, version int) *Peer {
@@ -182,6 +182,7 @@ func (p *Peer) Conns() []*peerConn {
 	defer p.mu.Unlock()
 	return append([]*peerConn{}, p.conns...)
 }
+
 // FirstConn waits for the first accepted connection (the accept goroutine may lag behind the client's Dial)
 func (p *Peer) FirstConn() *peerConn {
 	for i := 0; i < 400; i++ {
@@ -372,6 +373,9 @@ func (p *Peer) serveWS(pc *peerConn) {
 		p.onConn(pc)
 	}
 	for {
+		for atomic.LoadInt32(&pc.stall) == 1 {
+			time.Sleep(5 * time.Millisecond)
+		}
 		mt, data, err := pc.ws.ReadMessage()
 		if err != nil {
 			return
